@@ -45,7 +45,6 @@ def perrStr : PErr → String
   | .emptyPatchList => "EmptyPatchList"
   | .internalError => "InternalError"
   | .missingPatches => "MissingPatches"
-  | .unmodelled w => s!"UNMODELLED({us w})"
 
 def fnv (bs : Bytes) : String :=
   let h : UInt64 := bs.foldl (fun h b => (h ^^^ UInt64.ofNat b) * 0x100000001b3) 0xcbf29ce484222325
